@@ -32,6 +32,7 @@ EXPLANATION = (
 EXPLANATION += " The shared rule C07.R5 (the view's aggregation config reaches every CreateAggregation call of a storage) is evaluated."
 ROUND2_EXPLANATION = (" C19.R4 also: Builder::Build neither assigns, moves from nor mutates a member. C19.R6 also: PatternPredicate::Match decides by std::regex_match over begin..end. Shared C08.R6: the storage's attributes processor reaches every key built from caller attributes.")
 ROUND2_EXPLANATION += (" C19.R3 also: each matched view shapes its own copy of the instrument descriptor, and that copy - like the view's attribute filter - is the one that reaches the storage. C19.R6 also: an exact selector compares the whole string (size and content). Shared C06.R7: collection visits every meter and every storage, and no iteration callback asks to stop.")
+ROUND2_EXPLANATION += (' C19.R8: Meter::ValidateInstrument cannot return true with ValidateName or ValidateUnit pinned to false, and each validator receives its own parameter itself.')
 EXPLANATION += ROUND2_EXPLANATION
 NOT_DECIDED = 'that std::regex implements the parsed normal form; pattern predicates supplied by users; attribute equality of scopes.'
 
@@ -775,12 +776,54 @@ def rule_r3_filter_reaches_storage(ck, prog, rule='C19.R3'):
     return cnt
 
 
+def rule_r8_validate_instrument(ck, prog, rule='C19.R8'):
+    """the creation gate is the conjunction of the validators applied to their own argument: Meter::ValidateInstrument cannot
+    return true when ValidateName or ValidateUnit says no (each pinned to false in turn), ValidateName receives the name parameter
+    itself and ValidateUnit the unit parameter itself (not a part of it, not another parameter)"""
+    from ..symb import explore_pinned
+    f = prog.function('sdk::metrics::Meter::ValidateInstrument')
+    g = Graph(prog, f, inline=None, sync_lambdas=False)
+    byname = {p_['name']: p_ for p_ in f.params}
+    want_arg = {'ValidateName': 0, 'ValidateUnit': 2}
+    found = 0
+    for vname, pidx in sorted(want_arg.items()):
+        calls = [n for n in f.nodes if n['k'] == 'call' and strip_targs(n.get('c', '')).endswith('InstrumentMetaDataValidator::' + vname)]
+        site = 'gate:%s' % vname
+        if not calls:
+            ck.violation(rule, f, site, None, 'ValidateInstrument does not consult %s: instruments with an invalid %s are created' % (vname, 'name' if pidx == 0 else 'unit'))
+            continue
+        found += 1
+        if pidx >= len(f.params):
+            ck.inconclusive(rule, f, site, calls[0], 'parameter list of ValidateInstrument not as expected')
+            continue
+        par = byname.get('name' if pidx == 0 else 'unit') or f.params[pidx]
+        bad_arg = None
+        for c in calls:
+            a = strip_casts(f, c['args'][0]) if c.get('args') else None
+            while a is not None and a['k'] == 'construct' and a.get('copymove') and a.get('args'):
+                a = strip_casts(f, a['args'][0])
+            if a is None or a.get('id') != par['id']:
+                bad_arg = c
+        if bad_arg is not None:
+            ck.violation(rule, f, site + ':argument', bad_arg, '%s is not applied to the %s parameter itself: the %s that is validated is not the one the instrument gets' %
+                         (vname, par['name'], 'name' if pidx == 0 else 'unit'))
+        else:
+            ck.holds(rule, f, site + ':argument', calls[0], '%s(%s)' % (vname, par['name']))
+        rets, _seen = explore_pinned(g, {c['i']: False for c in calls})
+        vals = {v for (_ri, v, _env) in rets}
+        ok = bool(vals) and all(v is False for v in vals)
+        ck.verdict(ok, rule, f, site + ':necessary', calls[0], 'with %s pinned to false every return is false' % vname if ok else
+                   'ValidateInstrument can return true although %s rejected its argument: the gate is not the conjunction of the validators' % vname)
+    return found
+
+
 def run(ck, prog):
     ck.doc('C19.R1', 'no string_view::data() into a call without the view\'s length', 10)
     ck.doc('C19.R2', 'Create*: enabled and ValidateInstrument gates; descriptor table; tracer/logger enabled gates', 26)
     ck.doc('C19.R3', 'MatchMeter / MatchInstrument decision tables; FindViews visits all; default view only when none matched; view shapes storage; each view shapes its own descriptor copy, which - like the view\'s attribute filter - reaches the storage', 12)
     ck.doc('C19.R4', 'scope configurator: first match wins; stored closures own their captures; Build leaves the builder intact', 4)
     ck.doc('C19.R5', 'GetTracer/GetMeter/GetLogger: locked lookup-then-create on the stored identity', 6)
+    ck.doc('C19.R8', 'ValidateInstrument is the conjunction of ValidateName(name) and ValidateUnit(unit), each applied to its own parameter', 4)
     ck.doc('C19.R6', 'name/unit patterns equal the documented grammar (parsed normal form, exhaustive byte sets); validators, the pattern selector and the exact selector match the whole string', 6)
     ck.doc('C19.R7', 'every named constructor parameter of the providers and their contexts is used (configuration reaches the context)', 6)
     ck.doc('C06.R5', '(shared rule, see C06) registry writes in the per-view callback use a view-dependent key', 2)
@@ -796,6 +839,7 @@ def run(ck, prog):
     rule_r4(ck, prog)
     rule_r5(ck, prog)
     rule_r6(ck, prog)
+    rule_r8_validate_instrument(ck, prog)
     rule_r7(ck, prog)
     if not rule_r3_descriptor_copy(ck, prog):
         raise AnalysisBroken('no per-view callback of Register*MetricStorage writes a descriptor')
